@@ -192,6 +192,8 @@ fn bound_type(b: &Bound, is_mut: bool) -> Option<String> {
 /// Judges one expansion against the reference match. Returns false if the walker could not
 /// read the expansion (inconclusive for E3; E2 decides).
 pub fn judge_expansion(rep: &mut Rep, mac: Mac, q: &GQuery, want: &[(String, Vec<Bound>)], ts: TokenStream, ctx: &str) -> bool {
+    // with cfg decorations in play a wrong match is (also) a cfg defect
+    let c05: &[&'static str] = if ctx.contains("#[cfg(") { &["C05", "C16"] } else { &["C05"] };
     if walk::has_unsafe(ts.clone()) {
         rep.violate(&["C18"], "unsafe-token", format!("{ctx}: expansion contains the `unsafe` keyword"));
         return true;
@@ -212,13 +214,13 @@ pub fn judge_expansion(rep: &mut Rep, mac: Mac, q: &GQuery, want: &[(String, Vec
         }
     }
     if got != exp {
-        rep.violate(&["C05"], "match-set", format!("{ctx}: expansion acts on archetypes {:?}, the reference match set is {:?}", got, exp));
+        rep.violate(c05, "match-set", format!("{ctx}: expansion acts on archetypes {:?}, the reference match set is {:?}", got, exp));
         return true;
     }
     for b in blocks.iter() {
         let bound = &want.iter().find(|w| w.0 == b.arch).unwrap().1;
         if b.params.len() != q.params.len() || b.args.len() != q.params.len() {
-            rep.violate(&["C05"], "binding", format!("{ctx}: {} closure has {} parameters / {} call arguments for {} query parameters", b.arch, b.params.len(), b.args.len(), q.params.len()));
+            rep.violate(c05, "binding", format!("{ctx}: {} closure has {} parameters / {} call arguments for {} query parameters", b.arch, b.params.len(), b.args.len(), q.params.len()));
             return true;
         }
         for (i, p) in q.params.iter().enumerate() {
@@ -233,7 +235,7 @@ pub fn judge_expansion(rep: &mut Rep, mac: Mac, q: &GQuery, want: &[(String, Vec
                 continue;
             };
             if pt.ty != ty {
-                rep.violate(&["C05"], "binding", format!("{ctx}: in {} parameter {} has type `{}`, expected `{}`", b.arch, p.name, pt.ty, ty));
+                rep.violate(c05, "binding", format!("{ctx}: in {} parameter {} has type `{}`, expected `{}`", b.arch, p.name, pt.ty, ty));
                 return true;
             }
             if let Bound::Comp(c) = &bound[i] {
@@ -241,7 +243,7 @@ pub fn judge_expansion(rep: &mut Rep, mac: Mac, q: &GQuery, want: &[(String, Vec
                 let hit = argids.iter().any(|x| mine.contains(x));
                 let other = POOL.iter().filter(|o| **o != c.as_str()).any(|o| argids.contains(&snake(o)) || argids.contains(&o.to_string()));
                 if !hit || other {
-                    rep.violate(&["C05"], "binding", format!("{ctx}: in {} parameter {} ({c}) is fed from `{:?}` which does not name that archetype's {c} column", b.arch, p.name, argids));
+                    rep.violate(c05, "binding", format!("{ctx}: in {} parameter {} ({c}) is fed from `{:?}` which does not name that archetype's {c} column", b.arch, p.name, argids));
                     return true;
                 }
                 rep.count("component_bindings_checked");
@@ -406,10 +408,10 @@ pub fn run_e3(seed: u64, shard: u64, n: usize) -> Rep {
                         }
                     }
                     (Ok(_), Err(e)) => {
-                        rep.violate(&["C05"], "reject", format!("{qctx} [{}]: expands although the reference rejects it ({:?})", mac.name(), e));
+                        rep.violate(if qctx.contains("#[cfg(") { &["C05", "C16"] } else { &["C05"] }, "reject", format!("{qctx} [{}]: expands although the reference rejects it ({:?})", mac.name(), e));
                     }
                     (Err(msg), Ok(m)) => {
-                        rep.violate(&["C05"], "reject", format!("{qctx} [{}]: rejected ({msg}) although it matches {:?}", mac.name(), m.iter().map(|x| &x.0).collect::<Vec<_>>()));
+                        rep.violate(if qctx.contains("#[cfg(") { &["C05", "C16"] } else { &["C05"] }, "reject", format!("{qctx} [{}]: rejected ({msg}) although it matches {:?}", mac.name(), m.iter().map(|x| &x.0).collect::<Vec<_>>()));
                     }
                 }
                 if rep.failed() {
